@@ -72,7 +72,7 @@ claimed["C17"] = (
  "DESIGN.md 6/C17")
 claimed["C20"] = (
  "exhaustive enumeration of module trees with a differential (twin collection) oracle on the real container",
- "All ordered module forests with <=3 leaves at nesting <=3 and 4 leaves at nesting <=1 (thorough: 4 leaves nesting <=3, 5 leaves nesting <=2), every leaf from 7 kinds (Add ok / keyed / duplicate / invalid options, Remove, RemoveKeyed, nil), so a failing entry occurs at every position and depth; a twin collection receives the flattened calls directly: deep dumps, queries, Build verdicts, full identity-universe answers of both providers and the ModuleError chain (one wrapper per enclosing module, outermost first, cause reachable with the same errors.Is/As classes) must coincide.",
+ "All ordered module forests with <=3 leaves at nesting <=3 and 4 leaves at nesting <=1 (thorough: 4 leaves nesting <=3, 5 leaves nesting <=1), every leaf from 7 kinds (Add ok / keyed / duplicate / invalid options, Remove, RemoveKeyed, nil), so a failing entry occurs at every position and depth; a twin collection receives the flattened calls directly: deep dumps, queries, Build verdicts, full identity-universe answers of both providers and the ModuleError chain (one wrapper per enclosing module, outermost first, cause reachable with the same errors.Is/As classes) must coincide.",
  "bounds as stated", "DESIGN.md 6/C20")
 claimed["C18"] = (
  "exhaustive enumeration of scope trees x context kinds x consumer shapes on the real container; identity oracle on every recorded constructor argument",
